@@ -49,6 +49,9 @@ func c03Alphabet() []Op {
 		Op{K: "rclean", P: "/a"},
 		Op{K: "rclean", P: "/{x}"},
 		Op{K: "premove", Ps: []string{"/a"}, P: "/b"},
+		Op{K: "reject", P: "/h", Ms: []string{"get"}},
+		Op{K: "reject", P: "/a", Ms: []string{"PATCH", "BOGUS"}},
+		Op{K: "reject", P: "/az", Ms: []string{"GET", "GET"}},
 	)
 	return ops
 }
